@@ -3,6 +3,6 @@
 ID=$1; F=$2; E=$3
 cd /repo && cp "$F" /tmp/mut_backup.$$ && sed -i "$E" "$F"
 if cmp -s "$F" /tmp/mut_backup.$$; then echo "MUTATION DID NOT CHANGE FILE"; fi
-cd /verif && ./check $ID ${4:+--tier $4} 2>&1 | grep -E "VIOLATION|ANALYSIS-BROKEN|expected|KNOWN|^C[0-9]" | head -8
+cd /verif && ./check $ID ${4:+--tier $4} 2>&1 | grep -E "VIOLATION|ANALYSIS-BROKEN|expected|^C[0-9]" | head -8
 echo "exit=$?"
 cd /repo && cp /tmp/mut_backup.$$ "$F" && rm /tmp/mut_backup.$$ && git -C /repo status --short | grep -v '^??'
